@@ -105,6 +105,10 @@ def header : Bytes → Option (Hdr × Bytes)
   | [] => none
   | b :: r => headerOf (classify b) r
 
+def blobObj : BlobKind → Bytes → Obj
+  | .str, s => .str s
+  | .bin, s => .bin s
+
 mutual
 def parseF : Nat → Bytes → Option (Obj × Bytes)
   | 0, _ => none
@@ -114,7 +118,7 @@ def parseF : Nat → Bytes → Option (Obj × Bytes)
     | some (.scalar o, r) => some (o, r)
     | some (.blob k n, r) =>
       if r.length < n then none
-      else some ((match k with | .str => Obj.str (r.take n) | .bin => Obj.bin (r.take n)), r.drop n)
+      else some (blobObj k (r.take n), r.drop n)
     | some (.ext n, r) =>
       match r with
       | [] => none
